@@ -71,7 +71,7 @@ def oracle(rep):
             want = sorted(d for (i, d), items in spec.items() if i == f[1] and f[2] in items)
             got = [] if line == "index -" else line.split(" ", 1)[1].split(",")
             if got != want:
-                return (_hostile_id(seen) or "C27-index-inconsistent", "GetIndexData(%s, %s) = %s, domains holding the key = %s" % (f[1], f[2], got, want))
+                return (_hostile_id(seen | {f[2]}) or "C27-index-inconsistent", "GetIndexData(%s, %s) = %s, domains holding the key = %s" % (f[1], f[2], got, want))
     return None
 
 
